@@ -1,5 +1,6 @@
 /* runner_lib.c -- helpers that need the library's internal headers */
 #include "common.h"
+#include <pthread.h>
 #include "myth/myth.h"
 #include "myth_config.h"
 #include "myth_worker.h"
@@ -113,7 +114,7 @@ void mt_lib_start(mt_case * c, mt_engine_cfg * e, size_t def_stack) {
           e->mode == MV_NOISE ? "noise" : "controlled", e->tail_preempt, c->sched_len, c->seed);
   cr_b8 = c->cfg.n > 8 ? c->cfg.p[8] : 0; cr_b9 = c->cfg.n > 9 ? c->cfg.p[9] : 0;
   if (c->gen < 1) cr_b8 = cr_b9 = 0;
-  if ((cr_b8 & 1) || (cr_b9 & 7) >= 6) { mt_desc("thread creation: %s%s\n", (cr_b8 & 1) ? "flavours rotate (NULL attribute, attribute object, parent-first, parent-first + 70000-byte stack, 70000-byte stack)" : "NULL attribute", (cr_b9 & 7) == 7 ? "; every created thread has a deferred cancellation request pending" : (cr_b9 & 7) == 6 ? "; every other created thread has a deferred cancellation request pending" : ""); mt_hash_u(((uint64_t)cr_b8 << 8) | cr_b9); }
+  if ((cr_b8 & 1) || (cr_b9 & 7) >= 3) { mt_desc("thread creation: %s%s\n", (cr_b8 & 1) ? "flavours rotate (NULL attribute, attribute object, parent-first, parent-first + 70000-byte stack, 70000-byte stack)" : "NULL attribute", (const char *[]){ "", "", "", "; created threads run with cancellation disabled and a request pending", "; every other created thread runs with cancellation disabled", "; created threads run with cancellation disabled", "; every other created thread has a deferred cancellation request pending", "; every created thread has a deferred cancellation request pending" }[cr_b9 & 7]); mt_hash_u(((uint64_t)cr_b8 << 8) | cr_b9); }
   int prelude = mt_allow_prelude && c->gen >= 1 && c->cfg.n >= 8 && (c->cfg.p[5] & 8) && (c->cfg.p[5] & 7);
   if (prelude) mt_desc("prelude: %d steps of unrelated library use before the program (kinds %02x, args %02x: detached / detach / join threads, custom stacks, keys)\n", c->cfg.p[5] & 7, c->cfg.p[6], c->cfg.p[7]);
   mt_flush_early();
@@ -179,30 +180,33 @@ static void mt_prelude(mt_case * c) {
 
 /* ---------------- creation flavours ---------------- */
 typedef struct { myth_func_t fn; void * arg; int cancel; } cr_t;
-static cr_t cr_pool[8192]; static volatile int cr_n; static long cr_stat[6];
+static cr_t cr_pool[8192]; static volatile int cr_n; static long cr_stat[6], cr_disabled;
 static void * cr_tramp(void * p) {
   cr_t * c = p;
   /* cancellation is deferred: a pending request must stay invisible to a thread that never calls myth_testcancel */
-  if (c->cancel) myth_cancel(myth_self());
+  if (c->cancel & 2) { int old = -1; if (myth_setcancelstate(PTHREAD_CANCEL_DISABLE, &old) != 0 || old != PTHREAD_CANCEL_ENABLE) mt_fail("myth_setcancelstate(DISABLE) in a new thread: returned an error or the old state was not ENABLE (%d)", old); }
+  if (c->cancel & 1) myth_cancel(myth_self());
   return c->fn(c->arg);
 }
 int mt_create(myth_thread_t * id, myth_func_t fn, void * arg) {
   int k = __sync_fetch_and_add(&cr_n, 1);
   int flavour = (cr_b8 & 1) ? (int)(((cr_b8 >> 1) + (unsigned)k) % 5) : 0;
-  int cancel = ((cr_b9 & 7) == 7) || ((cr_b9 & 7) == 6 && (k & 1));
+  /* b9 & 7: 7 every thread has a request pending, 6 every other one; 5 every thread runs with cancellation disabled
+     (never restored: the state is the thread's own business), 4 every other one; 3 both at once */
+  int cancel = (((cr_b9 & 7) == 7) || ((cr_b9 & 7) == 6 && (k & 1)) || (cr_b9 & 7) == 3 ? 1 : 0) | (((cr_b9 & 7) == 5) || ((cr_b9 & 7) == 4 && (k & 1)) || (cr_b9 & 7) == 3 ? 2 : 0);
   myth_thread_attr_t at; myth_thread_attr_t * ap = 0;
   if (flavour) {
     myth_thread_attr_init(&at); ap = &at;
     if (flavour == 2 || flavour == 3) at.child_first = 0;
     if (flavour >= 3) myth_thread_attr_setstacksize(&at, 70000);
   }
-  cr_stat[flavour]++; if (cancel) cr_stat[5]++;
-  if (cancel && k < 8192) { cr_pool[k].fn = fn; cr_pool[k].arg = arg; cr_pool[k].cancel = 1; return myth_create_ex(id, ap, cr_tramp, &cr_pool[k]); }
+  cr_stat[flavour]++; if (cancel & 1) cr_stat[5]++; if (cancel & 2) cr_disabled++;
+  if (cancel && k < 8192) { cr_pool[k].fn = fn; cr_pool[k].arg = arg; cr_pool[k].cancel = cancel; return myth_create_ex(id, ap, cr_tramp, &cr_pool[k]); }
   return myth_create_ex(id, ap, fn, arg);
 }
 
 void mt_lib_finish(void) {
-  if (cr_stat[1] + cr_stat[2] + cr_stat[3] + cr_stat[4]) mt_label("creation_flavours"); if (cr_stat[2] + cr_stat[3]) mt_label("parent_first_creation"); if (cr_stat[5]) mt_label("pending_cancel_request");
+  if (cr_stat[1] + cr_stat[2] + cr_stat[3] + cr_stat[4]) mt_label("creation_flavours"); if (cr_stat[2] + cr_stat[3]) mt_label("parent_first_creation"); if (cr_stat[5]) mt_label("pending_cancel_request"); if (cr_disabled) mt_label("cancel_disabled_threads");
   mv_finished();
   mv_disable();
 }
